@@ -174,7 +174,7 @@ def rule_r4(rep, program):
         r.violate(PROP, "ChainState.__setattr__:clears-all", "assigning any variable clears the whole cache: a momentum refresh discards position-dependent values (gradients) and forces re-evaluation", node=body[i], file=sf.file)
     # decorators
     for dname in ("cache_in_state", "cache_in_state_with_aux"):
-        d = program.func("states", dname)
+        d = c09.decorator_func(program, dname)
         wrappers = [n for n in ast.walk(d.node) if isinstance(n, ast.FunctionDef) and n.name == "wrapper"]
         if len(wrappers) != 1:
             raise AnalysisError(f"{dname}: wrapper function not found")
